@@ -359,6 +359,8 @@ let node_scenario a =
       let s = node_out r o in
       match L.rev (split '.' body) with
       | "zc" :: _ when String.length body > 0 && body.[0] = 'J' -> "zc~" ^ s
+      (* G.<k>.<hex>: the real bytes of captured datagram k, handed over by the model line for oracles that scan the wire; echoed *)
+      | hx :: _ :: "G" :: [] when s = "g" -> "g" ^ hx
       | _ -> s) a outs)
 
 
